@@ -4,6 +4,7 @@ Oracle 1: round trip through load().  Oracle 2: the harness's independent decode
 reads every data file with nothing but what the written descriptor records."""
 import copy
 import math
+import os
 import decimal
 
 from hypothesis import strategies as st
@@ -35,7 +36,14 @@ def cases_(draw):
     # JSON + non-alphabetical schema order cannot be loaded back (known finding): keep most JSON cases
     # alphabetical so that the rest of the round trip is still explored for that format
     alpha = opts['format'] == 'json' and draw(st.integers(0, 3)) != 0
-    pkg = draw(gen_dump.dump_package(tfp=opts['tfp'], sort_fields=alpha))
+    mixed = gen.rare(draw, 120)
+    pkg = draw(gen_dump.dump_package(tfp=opts['tfp'], sort_fields=alpha or mixed))
+    if mixed:
+        # force_format=False: every resource is written in the format its own path names
+        opts['force_format'] = False
+        for r in pkg:
+            base = os.path.splitext(r.get('path') or (r['name'] + '.csv'))[0]
+            r['path'] = base + '.' + draw(st.sampled_from(['csv', 'json']))
     return {'pkg': pkg, 'opts': opts}
 
 
@@ -86,7 +94,8 @@ def check(case, ctx):
     tables = gen.tables_of(pkg)
     out_dir = ctx.tmpdir()
     step, loc = gen_dump.build_dumper(dataflows, opts, out_dir)
-    classes = ['fmt:' + opts['format'], 'dumper:' + opts['dumper']]
+    fmts = [gen_dump.res_format(opts, r) for r in pkg]
+    classes = ['fmt:' + (opts['format'] if opts.get('force_format', True) else 'per-resource'), 'dumper:' + opts['dumper']]
     for k in ('add_filehash_to_path', 'tfp'):
         if opts[k]:
             classes.append('opt:' + k)
@@ -95,8 +104,8 @@ def check(case, ctx):
     except Exception as e:
         raise unexpected(e, 'dump')
     expected = []
-    for r in pkg:
-        rows = [{f['name']: norm_value(row[f['name']], f['type'], opts['format']) for f in r['fields']} for row in r['rows']]
+    for r, fmt in zip(pkg, fmts):
+        rows = [{f['name']: norm_value(row[f['name']], f['type'], fmt) for f in r['fields']} for row in r['rows']]
         expected.append(rows)
     # ---- oracle 2: independent decode with the written descriptor only
     store = decode.Store(loc)
@@ -107,7 +116,9 @@ def check(case, ctx):
             raise Violation('descriptor-unreadable', {'error': str(e)})
         if [r['name'] for r in wd['resources']] != [r['name'] for r in pkg]:
             raise Violation('resources-written', {'got': [r['name'] for r in wd['resources']]})
-        for r, wr, exp in zip(pkg, wd['resources'], expected):
+        for r, wr, exp, fmt in zip(pkg, wd['resources'], expected, fmts):
+            if wr.get('format', 'csv') != fmt:
+                raise Violation('written-format', {'resource': r['name'], 'got': wr.get('format'), 'expected': fmt})
             sig = [(f['name'], f['type']) for f in wr['schema']['fields']]
             if sig != [(f['name'], f['type']) for f in r['fields']]:
                 raise Violation('written-schema', {'got': sig, 'resource': r['name']})
@@ -120,7 +131,7 @@ def check(case, ctx):
                 sig = 'independent-decode:' + ('file-missing' if 'does not exist' in msg else
                                                'header' if 'header' in msg else 'cells')
                 raise Violation(sig, {'resource': r['name'], 'error': msg[:400], 'listing': store.listing()[:10]})
-            compare_rows('independent-decode', rows, exp, r, opts)
+            compare_rows('independent-decode', rows, exp, r, dict(opts, format=fmt))
     finally:
         store.close()
     # ---- oracle 1: load() round trip
@@ -134,24 +145,24 @@ def check(case, ctx):
     except Exception as e:
         rc = root_cause(e)
         order = [[f['name'] for f in r['fields']] for r in pkg]
-        if opts['format'] == 'json' and any(o != sorted(o) for o in order) and type(rc).__name__ == 'CastError':
+        if 'json' in fmts and any(o != sorted(o) for o in order) and type(rc).__name__ == 'CastError':
             raise Violation('load-roundtrip:json-non-alphabetical-field-order', {'error': str(rc)[:300]})
         raise Violation('load-roundtrip:raises:%s' % type(rc).__name__, {'error': str(rc)[:400]})
     ld = dp.descriptor
     if [r['name'] for r in ld['resources']] != [r['name'] for r in pkg] or len(res) != len(pkg):
         raise Violation('load-roundtrip:resources', {'got': [r['name'] for r in ld['resources']], 'streams': len(res)})
-    for r, lr, rows, exp in zip(pkg, ld['resources'], res, expected):
+    for r, lr, rows, exp, fmt in zip(pkg, ld['resources'], res, expected, fmts):
         sig = [(f['name'], f['type']) for f in lr['schema']['fields']]
         if sig != [(f['name'], f['type']) for f in r['fields']]:
             raise Violation('load-roundtrip:schema', {'got': sig, 'resource': r['name']})
         pk = lr['schema'].get('primaryKey', [])
         if (pk if isinstance(pk, list) else [pk]) != r.get('pk', []):
             raise Violation('load-roundtrip:primary-key', {'got': pk, 'expected': r.get('pk')})
-        compare_rows('load-roundtrip', rows, exp, r, opts)
+        compare_rows('load-roundtrip', rows, exp, r, dict(opts, format=fmt))
     hard = any(hard_cell(v) for r in pkg for row in r['rows'] for v in row.values())
     nulls = any(row[f['name']] is None for r in pkg for row in r['rows'] for f in r['fields'] if f['type'] == 'string') and \
         any(row[f['name']] == '' for r in pkg for row in r['rows'] for f in r['fields'] if f['type'] == 'string')
-    nt = hard or nulls or len(pkg) >= 2 or opts['format'] != 'csv' or opts['dumper'] != 'path' or \
+    nt = hard or nulls or len(pkg) >= 2 or fmts != ['csv'] * len(pkg) or opts['dumper'] != 'path' or \
         opts['add_filehash_to_path'] or bool(opts['tfp'])
     if hard:
         classes.append('hard-cell')
